@@ -68,10 +68,10 @@ class DecodeModel:
                     out.append(("<raw>", n, None))
         return out
 
-    def key_components(self, key):
+    def key_components(self, key, fn=None):
         """Endpoint initialiser components of a key expression (also through a local that
         holds the key), or None."""
-        key = facts.expand(self.decode, key)
+        key = facts.expand(fn or self.decode, key)
         for d in walk(key):
             if d.get("k") == "initlist" and d.get("rec") == EP:
                 return d["inits"]
@@ -84,7 +84,16 @@ class DecodeModel:
         the loop header (next iteration) or the loop exit."""
         if self._paths is None:
             stop = lambda b: b in (self.loop_block, self.loop_exit)
-            self._paths = paths.enumerate_paths(self.decode, self.body_entry, stop)
+            ps = paths.enumerate_paths(self.decode, self.body_entry, stop)
+            # a non-public Decoder helper that only decode calls (an extracted step of the loop body) is part of the loop body
+            fb = self.fb
+
+            def is_helper(g):
+                if g.rec != DEC or g.raw.get("access") not in ("private", "protected") or g.raw.get("static"):
+                    return False
+                sites = [h for h in fb.all_functions() for c in h.nodes() if c.get("k") == "call" and fb.resolve_call(c) is g]
+                return bool(sites) and all(h.key == self.decode.key for h in sites)
+            self._paths = paths.splice_helpers(fb, ps, is_helper)
         return self._paths
 
     def path_table_ops(self, p):
@@ -533,9 +542,42 @@ def rule_keyed_access(res, rid, m, also_methods=True):
     users = [f for f in fb.all_functions() if f.name.startswith(DEC + "::") and any(
         n.get("k") == "member" and n.get("field") == m.table for n in f.nodes())]
     n_uses = 0
+    def call_sites(f):
+        return [(g, facts.effective_call(c)) for g in fb.all_functions() for c in g.nodes() if c.get("k") == "call" and fb.resolve_call(c) is f]
+
+    def component_why(f, comp, getter, depth=0):
+        """[] when key component comp (in f) is `getter` of this call's frame header; reasons otherwise.  In a helper that
+        only decode calls, a component that is one of the helper's parameters is judged at every call site."""
+        decls, calls = depends(f, comp)
+        why = []
+        if f.key != m.decode.key:
+            pd = [q["decl"] for q in f.params]
+            srcs = [d for d in decls if d in pd]
+            others = [d for d in decls if d not in pd and not d.startswith("l")]
+            if len(srcs) != 1 or (calls & HDR_GETTERS) or others or depth > 1:
+                return ["component %s of a helper is not one of its parameters passed in by decode" % canon(comp)]
+            for g, c in call_sites(f):
+                idx = pd.index(srcs[0])
+                if idx >= len(c.get("args", [])):
+                    return ["call of %s without the key argument" % f.name]
+                why += component_why(g, c["args"][idx], getter, depth + 1)
+            return why
+        hg = calls & HDR_GETTERS
+        if hg != {getter}:
+            why.append("component %s depends on header getters %s, expected exactly %s" % (canon(comp), sorted(hg), getter))
+        if "p0:data" not in decls:
+            why.append("component %s does not derive from this call's buffer" % canon(comp))
+        if any(d == m.table or d.startswith(DEC + "::") for d in decls):
+            why.append("component %s depends on decoder state" % canon(comp))
+        return why
     for f in users:
-        res.check(f.key == m.decode.key, rid, "table-user:" + f.name, f.loc,
-                  "the table is used only inside decode", "function %s touches the reassembly table outside decode" % f.name)
+        helper_ok = f.key == m.decode.key
+        if not helper_ok:
+            sites = call_sites(f)
+            helper_ok = bool(sites) and all(g.key == m.decode.key for g, _ in sites) and f.raw.get("access") in ("private", "protected", None)
+        res.check(helper_ok, rid, "table-user:" + f.name, f.loc,
+                  "the table is used only inside decode" if f.key == m.decode.key else "non-public helper called only from decode",
+                  "function %s touches the reassembly table outside decode" % f.name)
         for nm, call, key in m.table_uses(f):
             n_uses += 1
             kid = "%s:%s@%s" % (f.name.split("::")[-1], nm, n_uses)
@@ -543,24 +585,14 @@ def rule_keyed_access(res, rid, m, also_methods=True):
                 res.bad(rid, "table-op:%s:%s" % (f.name.split("::")[-1], nm), call.get("loc"),
                         "whole-table or unkeyed operation `%s` on the reassembly table: affects or observes other endpoints" % nm)
                 continue
-            comps = m.key_components(key)
+            comps = m.key_components(key, f)
             if comps is None or len(comps) != 2:
                 res.bad(rid, "table-key:%s" % nm, call.get("loc"), "key of %s is not an Endpoint{device,stream} built at the call: %s" % (nm, canon(key)))
                 continue
-            ok = True
             why = []
             for comp, getter in zip(comps, want):
-                decls, calls = depends(f, comp)
-                hg = calls & HDR_GETTERS
-                if hg != {getter}:
-                    ok = False
-                    why.append("component %s depends on header getters %s, expected exactly %s" % (canon(comp), sorted(hg), getter))
-                if "p0:data" not in decls:
-                    ok = False
-                    why.append("component %s does not derive from this call's buffer" % canon(comp))
-                if any(d == m.table or d.startswith(DEC + "::") for d in decls):
-                    ok = False
-                    why.append("component %s depends on decoder state" % canon(comp))
+                why += component_why(f, comp, getter)
+            ok = not why
             res.check(ok, rid, "table-key:%s#%d" % (nm, n_uses), call.get("loc"),
                       "%s keyed by {getDeviceId(), getStreamId()} of this frame's header" % nm, "; ".join(why))
     return n_uses
@@ -784,7 +816,14 @@ def rule_default_entry_rejected(res, rid, m):
               "(TECMP routing guard), so the frame version passed on is non-zero",
               "the message loop is reachable with first input byte 0: a default entry (version 0) could match")
     # (c) the version passed to addSegment is byte 0 of the same buffer
-    for c in m.decode.calls(SEG + "::addSegment"):
+    seen_c = set()
+    adds = []
+    for p in m.body_paths():  # calls in spliced helpers appear with the helper's parameters replaced by decode's arguments
+        for c in p.calls(SEG + "::addSegment"):
+            if (c.get("id"), c.get("_site")) not in seen_c:
+                seen_c.add((c.get("id"), c.get("_site")))
+                adds.append(c)
+    for c in adds:
         arg = c["args"][2] if len(c.get("args", [])) >= 3 else None
         decls, calls = depends(m.decode, arg) if arg else (set(), set())
         res.check(arg is not None and (calls & HDR_GETTERS) == {HDR + "::getVersion"} and "p0:data" in decls, rid,
@@ -1207,7 +1246,8 @@ def rule_first_restart(res, rid, m):
         ok = bool(assigns) and not reads_old
         src_ok = False
         for a in assigns:
-            ns = [y for arg in a.get("args", []) for y in expand_locals(m.decode, arg)]
+            ns = [y for arg in a.get("args", []) for y in walk(paths.path_value(p, arg, before=a.get("id")))] + \
+                [y for arg in a.get("args", []) for y in expand_locals(m.decode, arg)]
             built = any(x.get("k") == "construct" and x.get("rec") == SEG and len(x.get("args", [])) >= 2 for x in ns)
             reads_table = any(x.get("k") == "member" and x.get("field") == m.table for x in ns)
             if built and not reads_table:
